@@ -31,6 +31,8 @@ theorem equal_iff (n m : Number) (hn : WF n) (hm : WF m) :
   have hq := Lemmas.Number.lessPanics_false m n (by have := hm.2; omega) (by have := hn.2; omega)
   exact ⟨by simp [equal?, hp, hq], (Lemmas.Number.equal_iff n m hn hm).trans (Lemmas.Number.den_eq_iff n m).symm⟩
 
+example : WF ⟨15, 1, false⟩ ∧ WF ⟨150, 2, false⟩ ∧ WF ⟨0, 18, true⟩ := by decide
+
 /-- `Int` returns the exact value or an error, never a wrapped value: it succeeds with `i` exactly when
     the number is an integer whose value `i` lies in the int64 range.  (Any magnitude, also ≥ 2^64.) -/
 theorem int_exact (n : Number) (i : Int) : toInt n = .ok i ↔ toInt64 n = some i := by
@@ -50,6 +52,8 @@ theorem int_den (n : Number) (i : Int) (h : toInt n = .ok i) : (i : Rat) = den n
   split at h'
   · next hc => cases h'; exact ⟨(Lemmas.Number.den_int n hc.1).symm, hc.2⟩
   · cases h'
+
+example : toInt ⟨9223372036854775808, 0, true⟩ = .ok (-9223372036854775808) := by decide
 
 /-- `FromInt` of an int64 is the integer with exactly that value. -/
 theorem fromInt_exact (i : Int) (h : inInt64 i) :
@@ -74,6 +78,8 @@ theorem fromUint_exact (u : Nat) (h : u < 2 ^ 64) :
   refine ⟨⟨rfl, h⟩, ?_⟩
   rw [Lemmas.Number.den_int _ rfl]; simp [num, fromUint]
 
+example : (18446744073709551615 : Nat) < 2 ^ 64 := by decide
+
 /-- `String` does not panic for fd ≤ 18 and prints a literal `[-] digits [. digits]` (both digit strings
     non-empty, exactly fd fraction digits) that denotes exactly ⟦n⟧. -/
 theorem print_exact (n : Number) (h : n.fd ≤ 18) :
@@ -83,6 +89,8 @@ theorem print_exact (n : Number) (h : n.fd ≤ 18) :
     Lemmas.Number.toLit_digitsOK n, Lemmas.Number.toLit_proper n, Lemmas.Number.toLit_scale n, ?_⟩
   unfold Lit.den den Lit.num num
   rw [Lemmas.Number.toLit_scale, Lemmas.Number.toLit_mant, Lemmas.Number.toLit_neg]
+
+example : (⟨5, 18, true⟩ : Number).fd ≤ 18 := by decide
 
 /-- print/parse round trip, integers: every integer of 64-bit magnitude with sign (also `-0`) parses back
     to the identical number. -/
@@ -199,6 +207,10 @@ theorem parseInt_exact (l : Lit) (hd : l.digitsOK) (hip : l.ip ≠ []) (hfp : l.
   · simp only [hw, if_false, not_false_eq_true, iff_true]
     exact ⟨by simp, ⟨_, rfl⟩⟩
 
+example : (⟨some true, [1, 0], none⟩ : Lit).digitsOK ∧ (⟨some true, [1, 0], none⟩ : Lit).ip ≠ [] ∧
+    (⟨some true, [1, 0], none⟩ : Lit).noLeadingZero := by
+  refine ⟨⟨by decide, by decide⟩, by decide, by decide⟩
+
 /-- `asRangeInt` (fraction-digits, enum values, bit positions …) on an integer literal of the stated
     form: it returns `i` exactly when the literal's value is `i` and `lo ≤ i ≤ hi`; no wrap-around
     whatever the magnitude written. -/
@@ -241,5 +253,7 @@ theorem asRangeInt_exact (l : Lit) (lo hi i : Int) (hd : l.digitsOK) (hip : l.ip
       have : l.num.natAbs = l.mant := by unfold Lit.num; split <;> simp
       unfold inInt64 at hlo hhi
       omega
+
+example : inInt64 1 ∧ inInt64 18 ∧ (⟨none, [1, 8], none⟩ : Lit).noLeadingZero := by decide
 
 end Goyang.Props.C15
